@@ -19,7 +19,13 @@ Inductive obj :=
 | OCommit (tree : oid) (parents : list oid)
 | OTag (target : oid).
 
-Record pack := { p_old : bool; p_promisor : bool; p_objs : list oid }.
+(* A pack file is content addressed: its name is the checksum of its bytes, which
+   the encoder determines from the set of objects and from how it encodes them
+   (window, delta reuse, ref deltas).  The model's name is that pair: the sorted
+   object set and an opaque encoding variant.  Equal names imply equal object
+   sets by construction (wf_names below). *)
+Definition pname := (list oid * N)%type.
+Record pack := { p_name : pname; p_old : bool; p_promisor : bool; p_objs : list oid }.
 
 Record repo := {
   objs : list (oid * obj);        (* what an id denotes *)
@@ -139,22 +145,6 @@ Definition prune (fuel : nat) (r : repo) (use_limit : bool) : res repo :=
     Ok (set_store r (filter (fun l => mem (fst l) st.(seen) || (use_limit && negb (snd l))) r.(loose)) r.(packs))
   end.
 
-(* Repository.RepackObjects; use_limit: OnlyDeletePacksOlderThan is set *)
-Definition repack (fuel : nat) (r : repo) (use_limit : bool) : res repo :=
-  match walk_all fuel r with
-  | Err e => Err e
-  | Ok st =>
-    let objs := present st in
-    if forallb (has r) objs then
-      Ok (set_store r
-            (filter (fun l => negb (mem (fst l) st.(seen))) r.(loose))
-            ({| p_old := false; p_promisor := promisor r; p_objs := objs |}
-               :: filter (fun p => use_limit && negb p.(p_old)) r.(packs)))
-    else Err EEncode
-  end.
-
-(* ---- correspondence entry point ---- *)
-
 Fixpoint insert_n (x : N) (l : list N) : list N :=
   match l with
   | [] => [x]
@@ -162,14 +152,82 @@ Fixpoint insert_n (x : N) (l : list N) : list N :=
   end.
 Definition sort_n (l : list N) : list N := fold_right insert_n [] l.
 
+Fixpoint ids_eqb (a b : list oid) : bool :=
+  match a, b with
+  | [], [] => true
+  | x :: a', y :: b' => (x =? y) && ids_eqb a' b'
+  | _, _ => false
+  end.
+Definition name_eqb (a b : pname) : bool := ids_eqb (fst a) (fst b) && (snd a =? snd b).
+
+(* Repository.RepackObjects; use_limit: OnlyDeletePacksOlderThan is set;
+   variant: whatever else the encoder's output depends on.
+   PackWriter.save keeps a pack that is already there under the new name;
+   the old-packs loop skips the name just written (`if h == nh { continue }`)
+   and hands every other pre-existing pack to DeleteOldObjectPackAndIndex. *)
+Definition repack (fuel : nat) (r : repo) (use_limit : bool) (variant : N) : res repo :=
+  match walk_all fuel r with
+  | Err e => Err e
+  | Ok st =>
+    let objs := present st in
+    if forallb (has r) objs then
+      let nm : pname := (sort_n objs, variant) in
+      let packs1 :=
+        if existsb (fun p => name_eqb p.(p_name) nm) r.(packs) then r.(packs)
+        else {| p_name := nm; p_old := false; p_promisor := promisor r; p_objs := objs |} :: r.(packs) in
+      Ok (set_store r
+            (filter (fun l => negb (mem (fst l) st.(seen))) r.(loose))
+            (filter (fun p => name_eqb p.(p_name) nm || (use_limit && negb p.(p_old))) packs1))
+    else Err EEncode
+  end.
+
+(* ---- histories: garbage collection rounds on a repository that may gain
+   loose objects and staged entries in between ---- *)
+
+Inductive gcop :=
+| GPrune (use_limit : bool)
+| GRepack (use_limit : bool) (variant : N)
+| GAddLoose (o : oid)          (* SetEncodedObject of an object of the table *)
+| GStage (o : oid).            (* the index gains an entry for o *)
+
+Definition gc_step (op : gcop) (r : repo) : res repo :=
+  match op with
+  | GPrune lim => prune (gc_fuel r) r lim
+  | GRepack lim v => repack (gc_fuel r) r lim v
+  | GAddLoose o =>
+    Ok (if mem o (map fst r.(loose)) then r else set_store r ((o, false) :: r.(loose)) r.(packs))
+  | GStage o =>
+    Ok {| objs := r.(objs); loose := r.(loose); packs := r.(packs); roots := r.(roots);
+          shallow := r.(shallow); index := (false, o) :: r.(index) |}
+  end.
+
+(* a failed round changes nothing *)
+Definition gc_apply (op : gcop) (r : repo) : repo :=
+  match gc_step op r with Ok r' => r' | Err _ => r end.
+Definition run_seq (ops : list gcop) (r : repo) : repo := fold_left (fun s op => gc_apply op s) ops r.
+
+(* ---- correspondence entry point ---- *)
+
 Definition err_name (e : gerr) : string :=
   match e with EFuel => "fuel" | EWalk => "walk" | EEncode => "encode" end%string.
 
-Definition c22_run (is_prune : bool) (use_limit : bool) (r : repo) : out :=
-  let fuel := gc_fuel r in
-  match (if is_prune then prune fuel r use_limit else repack fuel r use_limit) with
+Definition render_round (x : res repo) : out :=
+  match x with
   | Err e => OErr (err_name e)
   | Ok r' =>
     OOk [OList (map ON (sort_n (map fst r'.(loose))));
          OList (map ON (sort_n (flat_map p_objs r'.(packs))))]
   end.
+
+(* one observable per prune / repack round *)
+Fixpoint c22_rounds (ops : list gcop) (r : repo) : list out :=
+  match ops with
+  | [] => []
+  | op :: rest =>
+    match op with
+    | GPrune _ | GRepack _ _ => render_round (gc_step op r) :: c22_rounds rest (gc_apply op r)
+    | _ => c22_rounds rest (gc_apply op r)
+    end
+  end.
+
+Definition c22_run (ops : list gcop) (r : repo) : out := OList (c22_rounds ops r).
